@@ -46,6 +46,10 @@ def build(cfg):
     cs = lib()
     from checkpoint_schedules import StorageType
     p = cfg["p"]
+    if cfg.get("npargs"):        # the same integers, passed as numpy.int64
+        import numpy
+        p = {k: (numpy.int64(v) if isinstance(v, int) and k in ("max_n", "ram", "disk", "period") else v)
+             for k, v in p.items()}
     c = cfg["cls"]
     st = {0: StorageType.RAM, 1: StorageType.DISK, 2: StorageType.WORK,
           3: StorageType.NONE}.get(p.get("st", 1))
@@ -157,7 +161,16 @@ class Driver:
         self.last_action = None
         with contextlib.redirect_stdout(self.out):
             try:
-                a = next(self.obj)
+                if self.cfg.get("forloop"):
+                    # the documented driving style: `for action in schedule: ...; break` at the end of
+                    # the forward / of an adjoint calculation, then a NEW for loop on the same object
+                    if getattr(self, "_it", None) is None:
+                        self._it = iter(self.obj)
+                    a = next(self._it)
+                    if type(a).__name__ in ("EndForward", "EndReverse"):
+                        self._it = None      # leaving the loop drops the iterator
+                else:
+                    a = next(self.obj)
             except StopIteration:
                 self._log([C_NEXT, O_STOP, K_NONE, 0, 0, 0, 0, 3, 3])
                 self.ev[-1].append(0)
@@ -228,7 +241,7 @@ class Driver:
     def trace(self, **extra):
         t = {"cls": self.cfg["cls"], "p": self.cfg["p"], "N": self.cfg["N"],
              "passes": self.cfg["passes"], "ctor": self.ctor, "hung": 0, "capped": 0,
-             "sib": 0, "sibo": self.cfg.get("sibo", 0), "siblen": 0, "ev": self.ev}
+             "sib": 0, "sibo": self.cfg.get("sibo", 0), "siblen": 0, "prefix": 0, "ev": self.ev}
         if "grp" in self.cfg:
             t["grp"] = self.cfg["grp"]
         if "calls" in self.cfg:
@@ -252,7 +265,7 @@ def canonical(cfg, extra_next=3, cap=None):
     N = cfg["N"]
     want = cfg["passes"]
     if cap is None:
-        cap = 40 * N * N + 400 * N + 200
+        cap = (40 * N * N + 400 * N + 200) * max(1, want)
     finalized = cfg["cls"] not in ONLINE
     ers = 0
     extra = None
@@ -285,6 +298,23 @@ def canonical(cfg, extra_next=3, cap=None):
             extra = extra_next
     capped = len(d.ev) >= cap
     return d.trace(capped=int(capped))
+
+
+def prefix(cfg, k):
+    """Construct, then only the first k next() calls (with the canonical finalize): giants whose
+    complete stream would be too long, recorded to see that they start at all."""
+    d = Driver(cfg)
+    if d.obj is None:
+        return d.trace(prefix=1)
+    from checkpoint_schedules import Forward
+    finalized = cfg["cls"] not in ONLINE
+    for _ in range(k):
+        r = d.do_next()
+        a = d.last_action
+        if r == "act" and not finalized and isinstance(a, Forward) and a.n1 >= cfg["N"]:
+            finalized = True
+            d.do_finalize(cfg["N"])
+    return d.trace(prefix=1)
 
 
 def scripted(cfg, calls):
@@ -323,10 +353,12 @@ def _work(cfg):
     try:
         if "calls" in cfg:
             return scripted(cfg, cfg["calls"])
+        if cfg.get("prefix"):
+            return prefix(cfg, cfg["prefix"])
         return canonical(cfg)
     except _Hang:
         return {"cls": cfg["cls"], "p": cfg["p"], "N": cfg["N"], "passes": cfg["passes"],
-                "ctor": 0, "hung": 1, "capped": 0, "sib": 0, "sibo": cfg.get("sibo", 0), "siblen": 0, "ev": []}
+                "ctor": 0, "hung": 1, "capped": 0, "sib": 0, "sibo": cfg.get("sibo", 0), "siblen": 0, "prefix": cfg.get("prefix", 0), "ev": []}
     except BaseException as e:  # machinery failure, reported by the caller
         return {"machinery": repr(e), "cfg": cfg}
     finally:
